@@ -392,6 +392,43 @@ func (c *Ctx) matcherDict(v ssa.Value) []string {
 
 // ruleAttach: for every parse call — the guards are exactly the pre-filters, every pre-filter is implied by the
 // regex, the text is a line of the right doc comment, names/positions come from the declaration, and the
+// litSetsCoverAll: the disjunction of the conjunctions is a tautology (every valuation of the literals satisfies
+// one of the sets) - decided by splitting on one literal at a time.
+func litSetsCoverAll(sets [][]Lit, depth int) bool {
+	if len(sets) == 0 || depth > 8 {
+		return false
+	}
+	for _, s := range sets {
+		if len(s) == 0 {
+			return true
+		}
+	}
+	key := sets[0][0].Key
+	for _, val := range []bool{true, false} {
+		var sub [][]Lit
+		for _, s := range sets {
+			var rest []Lit
+			contradicted := false
+			for _, l := range s {
+				if l.Key == key {
+					if l.Pos != val {
+						contradicted = true
+					}
+					continue
+				}
+				rest = append(rest, l)
+			}
+			if !contradicted {
+				sub = append(sub, rest)
+			}
+		}
+		if !litSetsCoverAll(sub, depth+1) {
+			return false
+		}
+	}
+	return true
+}
+
 // result reaches the matching list of PackageAnnotations.
 func (c *Ctx) ruleAttach(keywords ...string) {
 	P := c.P
@@ -400,6 +437,46 @@ func (c *Ctx) ruleAttach(keywords ...string) {
 		want[k] = true
 	}
 	perKw := map[string]int{}
+	type pendingGuards struct {
+		kw, cons, where string
+		unexpected      []string
+		lits            []Lit
+	}
+	groups := map[string][]pendingGuards{}
+	defer func() {
+		var keys []string
+		for k := range groups {
+			keys = append(keys, k)
+		}
+		sort.Strings(keys)
+		for _, k := range keys {
+			g := groups[k]
+			var sets [][]Lit
+			any := false
+			for _, pg := range g {
+				sets = append(sets, pg.lits)
+				if len(pg.unexpected) > 0 {
+					any = true
+				}
+			}
+			if !any {
+				continue
+			}
+			if len(g) > 1 && litSetsCoverAll(sets, 0) {
+				for _, pg := range g {
+					if len(pg.unexpected) > 0 {
+						c.ok("ATTACH/NO-EXTRA-GUARD", pg.cons, pg.where, "one of several calls of the parser on the same text; together they are reached for every comment line that passes the pre-filters")
+					}
+				}
+				continue
+			}
+			for _, pg := range g {
+				for _, u := range pg.unexpected {
+					c.fail("ATTACH/UNEXPECTED-GUARD", pg.cons, pg.where, "annotation "+pg.kw+" is not parsed under a condition the grammar does not mention: "+u)
+				}
+			}
+		}
+	}()
 	for _, ps := range c.parseSites() {
 		if len(want) > 0 && !want[ps.Keyword] {
 			continue
@@ -431,6 +508,7 @@ func (c *Ctx) ruleAttach(keywords ...string) {
 		P.Pinned(ps.ViaFn, ps.Via, func() {
 			// ---- guards: exactly the pre-filters (+ declaration-kind dispatch, nil checks, loops)
 			var unexpected []string
+			var unexpectedLits []Lit
 			sawMatcher := false
 			for _, l := range P.Guards(ps.Call) {
 				switch {
@@ -472,16 +550,21 @@ func (c *Ctx) ruleAttach(keywords ...string) {
 						break
 					}
 					unexpected = append(unexpected, short(l.String()))
+					unexpectedLits = append(unexpectedLits, l)
 				}
 			}
 			_ = sawMatcher
 			if len(unexpected) == 0 {
 				c.ok("ATTACH/NO-EXTRA-GUARD", cons, where, "parse is reached for every comment line that passes its own pre-filters")
-			} else {
-				for _, u := range unexpected {
-					c.fail("ATTACH/UNEXPECTED-GUARD", cons, where, "annotation "+kw+" is not parsed under a condition the grammar does not mention: "+u)
-				}
 			}
+			// (a condition that only chooses between several calls of the same parser on the same text is no
+			// condition on the annotation being parsed: decided per group below)
+			via := ""
+			if ps.Via != nil {
+				via = P.Pos(ps.Via.Pos())
+			}
+			gk := fmt.Sprintf("%s|%s|%s|%s", FuncName(ps.Parse), FuncName(ps.Call.Parent()), via, P.Desc(ps.Text))
+			groups[gk] = append(groups[gk], pendingGuards{kw, cons, where, unexpected, unexpectedLits})
 			// ---- text provenance
 			c.attachText(ps, cons, where)
 			// ---- result flows into the matching list
@@ -589,7 +672,32 @@ func (c *Ctx) docPriority(ps *parseSite, cons, where string) {
 	for _, g := range groups {
 		g = P.throughParams(g)
 		phi, isPhi := g.(*ssa.Phi)
-		if !isPhi {
+		type docAlt struct {
+			val    ssa.Value
+			guards []Lit
+		}
+		var alts []docAlt
+		if isPhi {
+			for i, e := range phi.Edges {
+				alts = append(alts, docAlt{e, P.EdgeGuards(phi.Block().Preds[i], phi.Block())})
+			}
+		} else if hc, isCall := g.(*ssa.Call); isCall {
+			// the choice made in a helper (`typeSpecDoc(genDecl, typeSpec)`): one alternative per return
+			if callee := hc.Call.StaticCallee(); callee != nil && P.IsProductFunc(callee) && !P.isAnchor(callee) && len(callee.Blocks) > 0 && callee.Signature.Results().Len() == 1 {
+				allInstrs(callee, func(b2 *ssa.BasicBlock, i2 ssa.Instruction) {
+					if r2, isRet := i2.(*ssa.Return); isRet && len(r2.Results) == 1 {
+						if p2, isP2 := r2.Results[0].(*ssa.Phi); isP2 {
+							for i, e := range p2.Edges {
+								alts = append(alts, docAlt{e, P.EdgeGuards(p2.Block().Preds[i], p2.Block())})
+							}
+						} else {
+							alts = append(alts, docAlt{r2.Results[0], P.BlockGuards(b2)})
+						}
+					}
+				})
+			}
+		}
+		if len(alts) == 0 {
 			// a single source
 			d := P.Desc(g)
 			if strings.Contains(d, "go/ast.TypeSpec.Doc") || strings.Contains(d, "go/ast.GenDecl.Doc") {
@@ -599,12 +707,11 @@ func (c *Ctx) docPriority(ps *parseSite, cons, where string) {
 			}
 			continue
 		}
-		okAll := len(phi.Edges) == 2
+		okAll := len(alts) == 2
 		var why string
 		sawSpec, sawGen := false, false
-		for i, e := range phi.Edges {
-			pred := phi.Block().Preds[i]
-			eg := P.EdgeGuards(pred, phi.Block())
+		for _, alt := range alts {
+			e, eg := alt.val, alt.guards
 			specNonNil, specNil := false, false
 			for _, l := range eg {
 				if v := nilCheckedValue(l); v != nil && fieldLoad(firstRoot(P, v), "go/ast.TypeSpec", "Doc") != nil {
